@@ -61,6 +61,13 @@ func NewWorld(drv string) *World {
 	case "configmaps":
 		w.Sim.StorageResource = "configmaps"
 	}
+	res := w.Sim.StorageResource
+	w.Sim.ObsNormalize = func(class string, body []byte) []byte {
+		if class != "record-read" && class != "record-write" {
+			return body
+		}
+		return normaliseRecordBody(res, body)
+	}
 	return w
 }
 
@@ -224,7 +231,21 @@ func (d *faultDriver) write(label string, fn func() error) error {
 	err := fn()
 	e.Applied = err == nil
 	d.s.LogEntry(e)
+	d.s.Observe(d.thread, label, 0, []byte(fmt.Sprint(err)))
 	return err
+}
+
+func (d *faultDriver) observeRead(label string, rs []*rspb.Release, err error) {
+	var sb strings.Builder
+	fmt.Fprint(&sb, err)
+	for _, r := range rs {
+		if r == nil {
+			continue
+		}
+		b, _ := json.Marshal(Summarise(r))
+		sb.Write(b)
+	}
+	d.s.Observe(d.thread, label, 0, []byte(sb.String()))
 }
 
 func (d *faultDriver) read(label string) error {
@@ -253,19 +274,25 @@ func (d *faultDriver) Get(key string) (*rspb.Release, error) {
 	if err := d.read("store:Get " + relOfKey(key)); err != nil {
 		return nil, err
 	}
-	return d.Driver.Get(key)
+	r, err := d.Driver.Get(key)
+	d.observeRead("store:Get "+relOfKey(key), []*rspb.Release{r}, err)
+	return r, err
 }
 func (d *faultDriver) List(f func(*rspb.Release) bool) ([]*rspb.Release, error) {
 	if err := d.read("store:List"); err != nil {
 		return nil, err
 	}
-	return d.Driver.List(f)
+	rs, err := d.Driver.List(f)
+	d.observeRead("store:List", rs, err)
+	return rs, err
 }
 func (d *faultDriver) Query(q map[string]string) ([]*rspb.Release, error) {
 	if err := d.read("store:Query"); err != nil {
 		return nil, err
 	}
-	return d.Driver.Query(q)
+	rs, err := d.Driver.Query(q)
+	d.observeRead("store:Query", rs, err)
+	return rs, err
 }
 
 // NewStorage builds the storage for one operation. For the memory driver a
@@ -393,4 +420,41 @@ func DecodeRecord(resource string, obj []byte) (*rspb.Release, map[string]string
 		return nil, lbls, err
 	}
 	return &r, lbls, nil
+}
+
+// normaliseRecordBody reduces a response carrying release records (object or
+// list) to the summaries of the records, so that observation hashes do not
+// depend on wall-clock timestamps stored in records.
+func normaliseRecordBody(resource string, body []byte) []byte {
+	var probe struct {
+		Kind  string            `json:"kind"`
+		Items []json.RawMessage `json:"items"`
+	}
+	if err := json.Unmarshal(body, &probe); err != nil {
+		return body
+	}
+	var sb strings.Builder
+	one := func(b []byte) {
+		r, lbls, err := DecodeRecord(resource, b)
+		if err != nil || r == nil {
+			sb.Write(b)
+			return
+		}
+		s, _ := json.Marshal(Summarise(r))
+		sb.Write(s)
+		sb.WriteString(userLabels(lbls))
+		sb.WriteString(";")
+	}
+	switch {
+	case strings.HasSuffix(probe.Kind, "List"):
+		sb.WriteString("list:")
+		for _, it := range probe.Items {
+			one(it)
+		}
+	case probe.Kind == "Status":
+		return body
+	default:
+		one(body)
+	}
+	return []byte(sb.String())
 }
